@@ -5,7 +5,7 @@ From Coq Require Import ZArith ZifyBool ZifyN ZifyNat.
 
 Definition cfg_ok (c : Cfg) : Prop :=
   0 < c_hdr c /\ 0 < c_block c /\ c_block c <= c_max_alloc c /\
-  c_max_alloc c + c_block c <= u64_max /\ 1 <= c_max_entries c.
+  c_max_alloc c + c_block c <= u64_max /\ 1 <= c_max_entries c /\ c_hdr c <= c_block c.
 
 Lemma need_pos c e : 0 < c_hdr c -> 0 < need c e.
 Proof. unfold need. lia. Qed.
